@@ -40,6 +40,14 @@ def line_mutations(line):
         out.append(('indent-1', line[1:]))
     if n > 1:
         out.append(('gap', pre + words[0] + '  ' + ' '.join(words[1:])))
+    # the line cut behind / in front of each punctuation character of its first two words (":" of ":CHAIN", "-" of "-A", ...)
+    head = pre + ' '.join(words[:2])
+    for i in range(ind, len(head)):
+        ch = head[i]
+        if not (ch.isalnum() or ch == ' '):
+            out.append(('cutc%d' % i, head[:i + 1]))
+            if i > ind:
+                out.append(('cutb%d' % i, head[:i]))
     return out
 
 
